@@ -151,7 +151,9 @@ def run_order(c, order_seed):
                                      "info": [(i["sensor_id"], digest(i["boresight"]), float(i["time_last_tasked"])) for i in r.sensor_info_list]})
                 steps.append({
                     "time": float(app.clock.time), "vis": e.visibility_matrix.astype(int).tolist(), "dec": e.decision_matrix.astype(int).tolist(),
-                    "reward": digest(e.reward_matrix), "obs": obs, "miss": miss, "changes": sorted(e.sensor_changes.keys()), "sensors": sensors, "est": est, "truth": truth,
+                    "reward": digest(e.reward_matrix), "obs": obs, "miss": miss,
+                    # the engine's list as it stands: its sequence is what the filters stack and what the rows are written from
+                    "obs_seq": [(o.sensor_id, o.target_id, digest(o.measurement_states)) for o in e.observations], "changes": sorted(e.sensor_changes.keys()), "sensors": sensors, "est": est, "truth": truth,
                     "jobs": jobs, "targets": list(e.target_list), "sensor_list": list(e.sensor_list),
                     "n_obs_attr": len(e.observations), "n_miss_attr": len(e.missed_observations),
                 })
@@ -265,7 +267,7 @@ def oracle_single(run: Run, c, res):
 def compare_orders(run, c, base, other, label):
     fails = []
     for k, (a, b) in enumerate(zip(base["steps"], other["steps"])):
-        for key in ("vis", "dec", "reward", "obs", "miss", "changes", "sensors", "est", "truth"):
+        for key in ("vis", "dec", "reward", "obs", "obs_seq", "miss", "changes", "sensors", "est", "truth"):
             if a[key] != b[key]:
                 fails.append((f"order:{key}", f"step {k + 1}: '{key}' differs between completion orders (FIFO vs {label}); decision {c['decision']}, sensors {c['ns']}, targets {c['nt']}"))
                 return fails
